@@ -77,7 +77,7 @@ def run(ctx):
     ctx.replay_and_compare("c01", recs, args=args, pkg="c01")
 
     # ---- code -> spec
-    total = 10000 if quick else 50000
+    total = 8000 if quick else 50000
     done = 0
     k = 0
     while done < total:
